@@ -376,7 +376,7 @@ func (adb *AccountsDB) loadDataTrie(accountHandler baseAccountHandler) error {
 	}
 
 	dataTrie := adb.dataTries.Get(accountHandler.AddressBytes())
-	if dataTrie != nil {
+	if dataTrie != nil && isDataTrieWithRootHash(dataTrie, accountHandler.GetRootHash()) {
 		accountHandler.SetDataTrie(dataTrie)
 		return nil
 	}
@@ -389,6 +389,28 @@ func (adb *AccountsDB) loadDataTrie(accountHandler baseAccountHandler) error {
 	accountHandler.SetDataTrie(dataTrie)
 	adb.dataTries.Put(accountHandler.AddressBytes(), dataTrie)
 	return nil
+}
+
+// isDataTrieWithRootHash returns true if the cached data trie is the one the account refers to. The cached
+// trie of an address can be another one when the account was removed and re-created before a revert
+func isDataTrieWithRootHash(dataTrie data.Trie, rootHash []byte) bool {
+	dataTrieRootHash, err := dataTrie.RootHash()
+	if err != nil {
+		return false
+	}
+
+	return bytes.Equal(dataTrieRootHash, rootHash)
+}
+
+// cacheRevertedDataTrie makes the data trie of a reverted account the cached data trie of its address: the
+// account might have been removed and re-created (with a new data trie) after the reverted change
+func (adb *AccountsDB) cacheRevertedDataTrie(account vmcommon.AccountHandler) {
+	baseAcc, ok := account.(baseAccountHandler)
+	if !ok || check.IfNil(baseAcc.DataTrieTracker()) || check.IfNil(baseAcc.DataTrie()) {
+		return
+	}
+
+	adb.dataTries.Put(baseAcc.AddressBytes(), baseAcc.DataTrie())
 }
 
 // SaveDataTrie is used to save the data trie (not committing it) and to recompute the new Root value
@@ -709,6 +731,7 @@ func (adb *AccountsDB) RevertToSnapshot(snapshot int) error {
 		}
 
 		if !check.IfNil(account) {
+			adb.cacheRevertedDataTrie(account)
 			err = adb.saveAccountToTrie(account)
 			if err != nil {
 				return err
